@@ -307,10 +307,15 @@ def random_cases(count, seed):
             op = {"kind": "copy", "cat": cat, "from": frm, "to": to, "alpha": []}
         else:
             need = len({v for row in tgt["rows"] for v in row}) + rng.randint(0, 3)
-            if rng.random() < 0.5:
+            mode = rng.random()
+            if mode < 0.4:
                 alpha = list(ALPHA_POOL[:max(need, 1)])
-            else:
+            elif mode < 0.8:
                 alpha = rng.sample(ALPHA_POOL, max(need, 1))
+            else:
+                # an alphabet that LOOKS like a range ("X-Z", "0-3"): its second letter is the dash, nothing else
+                alpha = list(rng.choice(["X-Z", "A-D9", "a-c", "0-3", "B-A"]))
+                alpha += [ch for ch in ALPHA_POOL if ch not in alpha][:max(0, need - len(alpha))]
             op = {"kind": "replace", "cat": cat, "from": frm, "to": frm, "alpha": alpha}
         cases.append({"id": f"r{k:05d}", "src": "random", "op": op, "in": doc, "style": rng.randrange(16)})
     return cases
